@@ -41,7 +41,7 @@ def tag(o):
 
 
 def rep(o, r=None, **kw):
-    d = {"kind": "input", "file": o["rel"], "argv": o["argv"]}
+    d = {"kind": "input", "file": o["rel"], "argv": o["argv"], "label": o.get("label"), "derived_options": o.get("derived_options"), "variant_text": o.get("variant_text")}
     if r is not None:
         d.update({"rule": r["rule"], "reported_lines": r.get("lines"), "inserted": r.get("ins"), "deleted": r.get("del"), "spans": r.get("spans")})
     d.update(kw)
@@ -105,3 +105,41 @@ def run_prop(pid, tier, level, evaluate, rule_text, assumptions, extra=None):
     if extra:
         extra(ck, data, rules, docg)
     return ck.finish()
+
+
+def replay(rp):
+    """re-run the observed fix run of a replay file against /repo and print what the extracted checker says"""
+    import tempfile, shutil, subprocess, random, yaml, roletable, tracer, corpus
+
+    print(json.dumps({k: rp[k] for k in rp if k not in ("variant_text",)}, indent=1)[:3000])
+    lab = rp.get("label") or {}
+    src = rp["file"].split(" {")[0].split(" <")[0]
+    path = os.path.join(vlib.REPO, src) if not src.startswith("corpus_min") else os.path.join(vlib.VERIF, src)
+    tmp = tempfile.mkdtemp(prefix="replay_", dir=vlib.BUILD)
+    try:
+        argv = list(rp.get("argv") or [])
+        opts = rp.get("derived_options") or lab.get("options")
+        if opts:
+            cf = os.path.join(tmp, "o.yaml")
+            open(cf, "w").write(yaml.safe_dump({"rule": {lab.get("rule") or rp.get("rule"): opts}}))
+            argv += ["-c", cf]
+        if lab.get("kind") == "variant":
+            lines = corpus.read_lines(path)
+            if lines and lines[-1] == "":
+                lines = lines[:-1]
+            v = trace.make_variant(lines, lab["variant"], random.Random(lab["variant"] + ":" + os.path.relpath(path, vlib.REPO)))
+            path = os.path.join(tmp, "v.vhd")
+            open(path, "w", encoding="utf-8", errors="surrogateescape").write("\n".join(v) + "\n")
+        vlib.build()
+        tp = os.path.join(tmp, "t.trace")
+        o = tracer.run_one({"path": path, "argv": argv, "trace_path": tp, "roles": roletable.load(), "refix": 2})
+        print("status", o["status"], o.get("exception", ""), "| c18 probes", o.get("c18"), "| reread", o.get("reread_diff"), o.get("reread_rejected"), "| refix", o.get("refix_changes"), o.get("left_fixable"))
+        if os.path.exists(tp):
+            out = subprocess.run([os.path.join(vlib.BUILD, "vsgmodel"), "trace", tp], stdout=subprocess.PIPE, text=True).stdout.split("\n")
+            print("flags: " + " ".join(trace.FLAGS))
+            for r, line in zip(o["records"], [l for l in out if l.startswith("R ")]):
+                if rp.get("rule") in (None, r["rule"]):
+                    print(r["rule"], "reported lines", r["lines"][:10], "|", line)
+    finally:
+        shutil.rmtree(tmp, ignore_errors=True)
+    return 0
